@@ -9,7 +9,10 @@ import LiquidModel.Drv.C16
 import LiquidModel.Drv.C15
 import LiquidModel.Drv.C11
 import LiquidModel.Drv.C12
+import LiquidModel.Drv.C13
+import LiquidModel.Drv.C17
 namespace Liquid.Drv
+open C11 C12 C13 C15 C16 C17
 
 /-- op name ↦ handler; each `Drv/*.lean` contributes its ops here. -/
 def dispatch (op : String) : Option (List String → String) :=
@@ -31,6 +34,15 @@ def dispatch (op : String) : Option (List String → String) :=
   | "c11" => some c11Op
   | "c12" => some c12Op
   | "c12t" => some c12tOp
+  | "c13" => some c13Op
+  | "c13law" => some c13LawOp
+  | "c13chain" => some c13ChainOp
+  | "c17" => some c17Op
+  | "c17p" => some c17pOp
+  | "c17r" => some c17rOp
+  | "c17c" => some c17cOp
+  | "c17z" => some c17zOp
+  | "c17d" => some c17dOp
   | _ => none
 
 end Liquid.Drv
